@@ -67,8 +67,7 @@ def main(argv=None):
         r = subprocess.call([sys.executable, "-m", "vf.engine.replay", a.replay], cwd=ROOT, env=env)
         return r
     if a.selftest:
-        from vf import selftest
-        return selftest.main(prop, a)
+        return subprocess.call([sys.executable, os.path.join(ROOT, "tools", "selftest.py"), "--all-checks" if prop == "ALL" else prop], cwd=ROOT)
     t0 = time.monotonic()
     mod = importlib.import_module("vf.harness.%s" % prop.lower())
     from vf.engine import pool
@@ -111,7 +110,8 @@ def report(prop, tier, seed, mod, aggs, xres, wall, verbose=False):
     known_lines = {}
     incon_lines = []
     harness_errors = []
-    os.makedirs(os.path.join(ROOT, "replays", prop), exist_ok=True)
+    REPLAYS = os.environ.get("VERIF_REPLAY_DIR") or os.path.join(ROOT, "replays")
+    os.makedirs(os.path.join(REPLAYS, prop), exist_ok=True)
     tot = dict(paths=0, obligations=0, discharged=0, inconclusive=0, states=0, transitions=0,
                solver_s=0.0, solver_calls=0, sym_branches=0, unexplored=0)
     funcs = set()
@@ -167,7 +167,7 @@ def report(prop, tier, seed, mod, aggs, xres, wall, verbose=False):
                 continue
             n_viol += 1
             h = hashlib.sha1(key.encode()).hexdigest()[:10]
-            path = os.path.join(ROOT, "replays", prop, "%s.json" % h)
+            path = os.path.join(REPLAYS, prop, "%s.json" % h)
             with open(path, "w") as f:
                 json.dump({"property": prop, "harness": prop.lower(), "scenario": agg["scenario"],
                            "params": agg["params"], "bounds": agg["bounds"], "label": v["label"],
@@ -191,13 +191,17 @@ def report(prop, tier, seed, mod, aggs, xres, wall, verbose=False):
                 continue
             n_viol += 1
             h = hashlib.sha1(key.encode()).hexdigest()[:10]
-            path = os.path.join(ROOT, "replays", prop, "%s.json" % h)
+            path = os.path.join(REPLAYS, prop, "%s.json" % h)
             with open(path, "w") as f:
                 json.dump({"property": prop, "engine": "X", "key": key, **v}, f, indent=1, default=str)
             viol_lines.append("VIOLATION property=%s replay=%s" % (prop, path))
             print("  violated: %s  %s" % (key, str(v.get("info"))[:400]))
         harness_errors.extend(xres.get("errors", []))
         samples.extend(xres.get("samples", [])[:2])
+    # second opinion: a sample of the discharged obligations re-decided by independent solvers
+    cross = crosscheck([x for agg in aggs for x in agg.get("smt", [])][:12])
+    for l in cross["lines"]:
+        incon_lines.append(l)
     # reachability (vacuity) guard
     need = getattr(mod, "MUST_REACH", {}).get(tier, getattr(mod, "MUST_REACH", {}).get("*", []))
     for r_ in need:
@@ -224,6 +228,7 @@ def report(prop, tier, seed, mod, aggs, xres, wall, verbose=False):
         "known_findings_seen": sorted(known_lines),
         "explanation": getattr(mod, "EXPLANATION", ""),
         "bounds": getattr(mod, "BOUNDS_TEXT", {}).get(tier, ""),
+        "second_solver": cross["summary"],
     }
     if xcov is not None:
         cov["crosshair"] = xcov
@@ -236,8 +241,9 @@ def report(prop, tier, seed, mod, aggs, xres, wall, verbose=False):
         "assumptions": getattr(mod, "ASSUMPTIONS", []) + COMMON_ASSUMPTIONS,
         "wall_s": round(wall, 2), "violations": n_viol,
     }
-    os.makedirs(os.path.join(ROOT, "evidence"), exist_ok=True)
-    with open(os.path.join(ROOT, "evidence", "%s.json" % prop), "w") as f:
+    EVD = os.environ.get("VERIF_EVIDENCE_DIR") or os.path.join(ROOT, "evidence")
+    os.makedirs(EVD, exist_ok=True)
+    with open(os.path.join(EVD, "%s.json" % prop), "w") as f:
         json.dump(ev, f, indent=1, default=str)
     print("%s %s: paths=%d obligations=%d discharged=%d sym_branches=%d solver=%.1fs wall=%.1fs exhaustive=%s" % (
         prop, tier, tot["paths"], tot["obligations"], tot["discharged"], tot["sym_branches"],
@@ -257,6 +263,46 @@ def report(prop, tier, seed, mod, aggs, xres, wall, verbose=False):
     for l in viol_lines:
         print(l)
     return 1 if viol_lines else 0
+
+
+def crosscheck(samples):
+    """Re-decide sampled obligations (PC and not A, expected unsat) with the cvc5 and z3 4.8 binaries."""
+    import shutil
+    import tempfile
+    summ = {"sampled": len(samples), "agree": 0, "disagree": 0, "unknown": 0, "solvers": []}
+    lines = []
+    solvers = [("cvc5", ["cvc5", "--tlimit=20000"]), ("z3-4.8", ["/usr/bin/z3", "-T:20"])]
+    solvers = [(n, c) for n, c in solvers if shutil.which(c[0])]
+    summ["solvers"] = [n for n, _ in solvers]
+    if not samples or not solvers:
+        return {"summary": summ, "lines": lines}
+    d = tempfile.mkdtemp(prefix="vf-smt-")
+    try:
+        for i, (label, text) in enumerate(samples):
+            pth = os.path.join(d, "o%d.smt2" % i)
+            with open(pth, "w") as f:
+                f.write(text if "(check-sat)" in text else text + "\n(check-sat)\n")
+            answers = []
+            for n, c in solvers:
+                try:
+                    pr = subprocess.run(c + [pth], capture_output=True, text=True, timeout=40)
+                    out = (pr.stdout or "").strip().splitlines()
+                    ans = out[0].strip() if out else "unknown"
+                    if "(error" in (pr.stdout + pr.stderr):
+                        ans = "error"
+                except Exception:  # noqa
+                    ans = "unknown"
+                answers.append(ans)
+            if any(a_ == "sat" for a_ in answers):
+                summ["disagree"] += 1
+                lines.append("INCONCLUSIVE second solver disagrees on a discharged obligation '%s': %s" % (label, dict(zip(summ["solvers"], answers))))
+            elif any(a_ == "unsat" for a_ in answers):
+                summ["agree"] += 1
+            else:
+                summ["unknown"] += 1
+    finally:
+        shutil.rmtree(d, ignore_errors=True)
+    return {"summary": summ, "lines": lines}
 
 
 COMMON_ASSUMPTIONS = [
